@@ -345,6 +345,8 @@ pub fn set_global_default(dispatcher: Dispatch) -> Result<(), SetGlobalDefaultEr
         )
         .is_ok()
     {
+        #[cfg(feature = "verif-hooks")]
+        crate::verif::point(crate::verif::site::SGD_AFTER_CAS);
         #[cfg(feature = "alloc")]
         let collector = {
             let collector = match dispatcher.collector {
@@ -364,6 +366,8 @@ pub fn set_global_default(dispatcher: Dispatch) -> Result<(), SetGlobalDefaultEr
         unsafe {
             GLOBAL_DISPATCH = Dispatch { collector };
         }
+        #[cfg(feature = "verif-hooks")]
+        crate::verif::point(crate::verif::site::SGD_AFTER_STORE);
         GLOBAL_INIT.store(INITIALIZED, Ordering::SeqCst);
         EXISTS.store(true, Ordering::Release);
         Ok(())
@@ -423,6 +427,8 @@ where
     F: FnMut(&Dispatch) -> T,
 {
     if SCOPED_COUNT.load(Ordering::Acquire) == 0 {
+        #[cfg(feature = "verif-hooks")]
+        crate::verif::point(crate::verif::site::GD_AFTER_SCOPED_LOAD);
         // fast path if no scoped dispatcher has been set; just use the global
         // default.
         return f(get_global());
@@ -1029,6 +1035,8 @@ impl State {
             })
             .ok();
         EXISTS.store(true, Ordering::Release);
+        #[cfg(feature = "verif-hooks")]
+        crate::verif::point(crate::verif::site::SD_AFTER_REPLACE);
         SCOPED_COUNT.fetch_add(1, Ordering::Release);
         DefaultGuard(prior)
     }
@@ -1071,6 +1079,8 @@ impl Drop for DefaultGuard {
     #[inline]
     fn drop(&mut self) {
         SCOPED_COUNT.fetch_sub(1, Ordering::Release);
+        #[cfg(feature = "verif-hooks")]
+        crate::verif::point(crate::verif::site::DG_AFTER_DEC);
         if let Some(dispatch) = self.0.take() {
             // Replace the dispatcher and then drop the old one outside
             // of the thread-local context. Dropping the dispatch may
